@@ -95,6 +95,23 @@ def _check_runtime_types(node: ASTNode, type_map: Mapping[Field, FieldTypeInfo])
     return incorrect_fields
 
 
+def _stable_str(val: Any) -> str:
+    """str() with a deterministic rendering of (nested) frozensets."""
+    if isinstance(val, frozenset):
+        return "frozenset({" + ", ".join(sorted(_stable_repr(v) for v in val)) + "})"
+    if type(val) is tuple:
+        return _stable_repr(val)
+    return str(val)
+
+
+def _stable_repr(val: Any) -> str:
+    if isinstance(val, frozenset):
+        return _stable_str(val)
+    if type(val) is tuple:
+        return "(" + ", ".join(_stable_repr(v) for v in val) + ("," if len(val) == 1 else "") + ")"
+    return repr(val)
+
+
 NODE_REGISTRY: weakref.WeakValueDictionary[str, ASTNode] = weakref.WeakValueDictionary()
 """Registry of all node objects."""
 
@@ -214,7 +231,7 @@ class ASTNode(DataClassSerializeMixin):
             skip_non_compare=True,
             sort_keys=True,
         ):
-            val_str = str(val)
+            val_str = _stable_str(val)
             id_props += f":{f.name}={type(val)}({val_str})"
             # Frame the value with its length, so that the content of one value
             # can't be confused with the separators and the next value
